@@ -182,7 +182,8 @@ EXTRA = {
             "Also: sub_problem_from_elements = definitional projection for every kept subset (W5); every algorithm object "
             "reused on six datasets in a row (W6)."),
     "C04": ("bounded end-to-end evaluation against a definitional oracle, histories on shared objects with late reads, "
-            "ideal PuLP / CPLEX stand-in solvers",
+            "ideal PuLP / CPLEX stand-in solvers; move deltas of the local search (C08/L5, L7); decoding of solver answers on a "
+            "12-element universe and of a 290-bucket row",
             "Also (C04/E): every configuration (CPLEX API absent and present) on curated datasets, and along a history of calls "
             "on shared objects; scores returned earlier are read again at the end."),
     "C05": ("bounded end-to-end evaluation with ideal PuLP / CPLEX stand-in solvers over the recorded model; igraph "
@@ -196,20 +197,25 @@ EXTRA = {
             "consecutive groups",
             "Also: Q2 on cascade families (first fusion anywhere, d groups absorbed backwards, following boundary) and on "
             "groups with 10 / 12 cross pairs."),
-    "C08": ("relative comparisons written as combinations of the accepted gains; bounded end-to-end evaluation with histories",
+    "C08": ("relative comparisons written as combinations of the accepted gains; bounded end-to-end evaluation with histories; "
+            "decoding of a 290-bucket final row (L8)",
             "Also: a comparison between cost-dependent values whose outcome the signs of the gains do not force is explored "
             "both ways with two accepted moves in different sweeps (L1 relative-exit)."),
-    "C09": ("numpy array text modelled (elision beyond 1000 items); 1003-element scenario",
+    "C09": ("numpy array text modelled (elision beyond 1000 items); 1003-element scenario; departure rows of real BioConsert "
+            "objects built from real starting algorithms (same-named starters included); move deltas (C08/L5, L7)",
             "Also: two 1003-element rankings differing in the middle are both departure points (N3)."),
-    "C10": ("real entry point on a real Dataset with the scorer scripted; 1003-element scenario",
+    "C10": ("real entry point on a real Dataset with the scorer scripted; 1003-element scenario; real-valued score profiles; "
+            "completeness flag for 1..26, 100, 257, 300 rankings",
             "Also: K6 long rankings keep their own scores; K5 after mutators."),
-    "C11": ("orderings at three magnitudes; wiring on real instances",
+    "C11": ("orderings at three magnitudes; placement routine on a real object: symbolic costs and numeric decisions over several "
+            "rankings; emission on 4 and 7 elements with a consistent placement oracle; any source of randomness",
             "Also: V2 at 1e9- and 1e-9-scale costs (exact comparison); V4 by evaluation on real instances."),
     "C12": ("datasets with equal exact means over different numbers of rankings",
             "Also (C12/E): elements with the same exact mean over different presence counts are tied."),
     "C13": ("the counter on concrete cost cubes (three magnitudes, 130 elements); wiring on real instances",
             "Also: O1 at 1e9 / 1e-9 scale, O2 coverage for 4, 7 and 130 elements."),
-    "C14": ("complete-by-mutation datasets; shared termination obligations of the local search",
+    "C14": ("complete-by-mutation datasets; shared termination obligations of the local search; accepted schemes are computed "
+            "end to end (C03/W2 datasets)",
             "Also: datasets that became complete through in-place removals are never refused (A3); A6 = C08/L1, L3."),
     "C15": ("sequences on shared objects compared with runs on fresh objects",
             "Also: I6 a sequence of runs on one algorithm / Dataset / scheme object equals runs on fresh objects, step by "
